@@ -3,6 +3,7 @@ package main
 import (
 	"fmt"
 	"sort"
+	"strings"
 	"time"
 
 	"github.com/hack-pad/hackpadfs"
@@ -148,6 +149,7 @@ func runC03(r *Rng, n int, replay string) {
 	for id := 0; id < n; id++ {
 		l := layers[id%len(layers)]
 		ops := genNS(r, true)
+		cands := withNamedPaths(cands, ops)
 		fs, views := l.build()
 		w := &World{FS: fs}
 		c := &Case{ID: id, Kind: l.name}
@@ -211,4 +213,50 @@ func runC03(r *Rng, n int, replay string) {
 		}
 		emit(c)
 	}
+}
+
+// withNamedPaths extends the candidate closure by every path a history names (names outside the usual alphabet, such
+// as dot names), their ancestors, and where a Rename may have carried them: an orphan is only visible to someone who
+// knows its name.
+func withNamedPaths(cands []string, ops []Op) []string {
+	set := map[string]bool{}
+	for _, c := range cands {
+		set[c] = true
+	}
+	add := func(p string) {
+		if !hackpadfs.ValidPath(p) {
+			return
+		}
+		for q := p; q != "."; q = parentOf(q) {
+			set[q] = true
+		}
+	}
+	for _, o := range ops {
+		add(o.P)
+		if o.Kind == "rename" {
+			add(o.Q)
+		}
+	}
+	for round := 0; round < 2; round++ {
+		for _, o := range ops {
+			if o.Kind != "rename" || !hackpadfs.ValidPath(o.P) || !hackpadfs.ValidPath(o.Q) || o.P == "." {
+				continue
+			}
+			var moved []string
+			for k := range set {
+				if strings.HasPrefix(k, o.P+"/") && depthOf(o.Q+k[len(o.P):]) <= nsDepth+2 {
+					moved = append(moved, o.Q+k[len(o.P):])
+				}
+			}
+			for _, m := range moved {
+				add(m)
+			}
+		}
+	}
+	out := make([]string, 0, len(set))
+	for k := range set {
+		out = append(out, k)
+	}
+	sort.Strings(out)
+	return out
 }
